@@ -1,6 +1,7 @@
 package main
 
 import (
+	"bufio"
 	"bytes"
 	"fmt"
 	"io"
@@ -74,6 +75,69 @@ func czFileOffsetProbe(res *Result, seed uint64) {
 	}
 	os.Unsetenv("MOBY_DISABLE_PIGZ")
 	czZstdWindowProbe(res, seed)
+	czCallerBufioProbe(res, seed)
+}
+
+// A caller that hands in its own *bufio.Reader (any size), reads the stream to the end, then re-uses its reader for
+// the next source while other streams are being decompressed: every stream yields its own bytes — nothing the
+// library keeps between calls may be the caller's reader.
+func czCallerBufioProbe(res *Result, seed uint64) {
+	r := &Rng{s: seed ^ 0x62756669}
+	os.Setenv("MOBY_DISABLE_PIGZ", "1")
+	defer os.Unsetenv("MOBY_DISABLE_PIGZ")
+	for _, size := range []int{4096, 32 * 1024, 64 * 1024} {
+		for _, f := range []string{"none", "gzip-lib"} {
+			pays := [][]byte{czPayload("text", 3000+r.intn(2000), r.next(), false), czPayload("rand", 4000+r.intn(3000), r.next(), false),
+				czPayload("text", 2000+r.intn(2000), r.next(), false)}
+			var encs [][]byte
+			ok := true
+			for i, p := range pays {
+				e := czEncode(f, p, seed+uint64(i))
+				if e.skip != "" || e.prob != "" {
+					ok = false
+					break
+				}
+				encs = append(encs, e.data)
+			}
+			if !ok {
+				continue
+			}
+			caseText := fmt.Sprintf("fileoff caller-bufio=%d fmt=%s seed=%d", size, f, seed)
+			res.Evaluations++
+			res.Compared++
+			res.count("caller-bufio")
+			br := bufio.NewReaderSize(bytes.NewReader(encs[0]), size)
+			readAll := func(src io.Reader) ([]byte, error) {
+				rc, err := compression.DecompressStream(src)
+				if err != nil {
+					return nil, err
+				}
+				defer rc.Close()
+				return io.ReadAll(rc)
+			}
+			got0, err0 := readAll(br)
+			// the caller re-uses its reader for the next source; in between, an unrelated stream is decompressed
+			br.Reset(bytes.NewReader(encs[1]))
+			other, errO := compression.DecompressStream(bytes.NewReader(encs[2]))
+			got1, err1 := readAll(br)
+			var got2 []byte
+			var err2 error
+			if errO == nil {
+				got2, err2 = io.ReadAll(other)
+				other.Close()
+			} else {
+				err2 = errO
+			}
+			for i, g := range [][]byte{got0, got1, got2} {
+				e := []error{err0, err1, err2}[i]
+				if e != nil || !bytes.Equal(g, pays[i]) {
+					res.problem(Problem{Kind: "oracle", Stream: "compress", Case: caseText,
+						Msg: fmt.Sprintf("C16: a caller-supplied bufio.Reader of %d bytes, re-used for a second %s stream while a third is open: stream %d gave %d bytes (err %v), want its own %d bytes; first difference at %d", size, f, i, len(g), e, len(pays[i]), czFirstDiff(g, pays[i]))})
+					break
+				}
+			}
+		}
+	}
 }
 
 // Legal zstd streams whose frames declare a large window (zstd --long, --ultra, an encoder configured that way):
